@@ -12,6 +12,8 @@ ResizeOperator.lean`), the overlapping block in n dimensions and crop ∘ extend
 import OdlModel.Lemmas.ResizeSpec
 import OdlModel.Lemmas.ResizeLin
 import OdlModel.Model.ResizeOperator
+import Mathlib.Data.Rat.Floor
+import Mathlib.Tactic.Linarith
 
 set_option linter.unusedVariables false
 set_option linter.unusedTactic false
@@ -250,4 +252,40 @@ theorem overlap_back (mode : Mode) : ∀ (sIn sOut offs idx : List Nat),
   | _ :: _, _ :: _, [], _, h, _, _ => by simp [AdmissibleND] at h
 
 end
+
+/-! ### `np.around` / `np.isclose` on rationals -/
+
+theorem ratAbs_eq (q : Rat) : ratAbs q = |q| := by
+  unfold ratAbs; split_ifs with h
+  · exact (abs_of_neg h).symm
+  · exact (abs_of_nonneg (not_lt.1 h)).symm
+
+theorem roundHalfEven_int (z : Int) : roundHalfEven (z : Rat) = z := by
+  simp [roundHalfEven, Rat.floor_intCast]
+
+/-- `np.around` returns a nearest integer -/
+theorem roundHalfEven_near (q : Rat) : |q - (roundHalfEven q : Rat)| ≤ 1 / 2 := by
+  have h1 : ((Rat.floor q : Int) : Rat) ≤ q := Int.floor_le q
+  have h2 : q < ((Rat.floor q : Int) : Rat) + 1 := Int.lt_floor_add_one q
+  rw [abs_le]
+  unfold roundHalfEven
+  simp only
+  split_ifs <;> push_cast <;> constructor <;> linarith
+
+/-- … and THE nearest integer when one is closer than half a cell -/
+theorem roundHalfEven_eq_of_near (q : Rat) (z : Int) (h : |q - z| < 1 / 2) :
+    roundHalfEven q = z := by
+  have h1 := roundHalfEven_near q
+  rw [abs_le] at h1
+  rw [abs_lt] at h
+  have h2 : ((roundHalfEven q - z : Int) : Rat) < 1 := by push_cast; linarith
+  have h3 : (-1 : Rat) < ((roundHalfEven q - z : Int) : Rat) := by push_cast; linarith
+  have h2' : roundHalfEven q - z < 1 := by exact_mod_cast h2
+  have h3' : -1 < roundHalfEven q - z := by exact_mod_cast h3
+  omega
+
+theorem isClose_iff (rtol atol a b : Rat) :
+    isClose rtol atol a b = true ↔ |a - b| ≤ atol + rtol * |b| := by
+  simp [isClose, ratAbs_eq]
+
 end OdlModel.C16
